@@ -89,6 +89,35 @@ func c05(c *Ctx) {
 			r.Undecide("R05.V", "decrypt:validates-what-it-was-given", c.pos(f.Pos()), "no call of the cipher's decrypt loop in ige.Decrypt")
 		}
 	}
+	// what a caller gets back is his alone: a result cut from a pooled or otherwise kept buffer is overwritten by
+	// the next call (the key exchange keeps the decrypted answer while the next exchange may already run)
+	r.Rule("R05.O", "every []byte an exported function of package aes_ige returns belongs to a buffer made during the call (make, append onto nothing, an allocating library call, or such a result of a callee) - never storage reached through a pointer, field, pool or package variable", 4)
+	{
+		var fns []*ssa.Function
+		for f := range c.P.AllFunctions() {
+			if load.FuncPkgPath(f) != load.IgePkg || f.Synthetic != "" || len(f.Blocks) == 0 || f.Parent() != nil || f.Object() == nil || !f.Object().Exported() || f.Signature.Recv() != nil {
+				continue
+			}
+			fns = append(fns, f)
+		}
+		sort.Slice(fns, func(i, j int) bool { return fns[i].String() < fns[j].String() })
+		n := 0
+		for _, f := range fns {
+			res := f.Signature.Results()
+			for i := 0; i < res.Len(); i++ {
+				if !isByteSlice(res.At(i).Type()) {
+					continue
+				}
+				n++
+				why := ""
+				ok := resultFresh(f, i, 0, &why)
+				r.Check(ok, "R05.O", sprintf("result-owned:%s#%d", f.Name(), i), c.pos(f.Pos()), why)
+			}
+		}
+		if n == 0 {
+			r.Undecide("R05.O", "result-owned", "", "no exported function of aes_ige returns a byte slice")
+		}
+	}
 	// what the wrappers hand back is the buffer the block loop filled, whole: a result cut down afterwards (zero
 	// bytes "of padding" stripped, a prefix dropped) is no longer the inverse of the other direction
 	for _, name := range []string{"Encrypt", "Decrypt"} {
@@ -648,4 +677,112 @@ func (c *Ctx) paramsUntouched(rule, pkg string, isOut func(g *ssa.Function, idx 
 	if nparams == 0 {
 		r.Undecide(rule, "param-untouched", "", "no []byte parameter found in package "+pkg)
 	}
+}
+
+func isByteSlice(t types.Type) bool {
+	sl, ok := t.Underlying().(*types.Slice)
+	if !ok {
+		return false
+	}
+	b, ok := sl.Elem().Underlying().(*types.Basic)
+	return ok && b.Kind() == types.Uint8
+}
+
+// allocating library calls: the result is storage nobody else holds
+var freshLib = map[string]bool{
+	"bytes.Join": true, "bytes.Repeat": true, "bytes.Clone": true, "(*bytes.Buffer).Bytes": false,
+	"github.com/xelaj/go-dry.Sha1Byte": true, "github.com/xelaj/go-dry.Sha1": true, "github.com/xelaj/go-dry.RandomBytes": true,
+	"github.com/xelaj/go-dry.BigIntBytes": true, "(*math/big.Int).Bytes": true, "(*math/big.Int).FillBytes": false,
+}
+
+// resultFresh: every value function f returns as its idx-th result is a buffer made during the call.
+func resultFresh(f *ssa.Function, idx, depth int, why *string) bool {
+	if depth > 4 {
+		*why = "call chain too deep to follow"
+		return false
+	}
+	n := 0
+	for _, b := range f.Blocks {
+		for _, in := range b.Instrs {
+			ret, ok := an.AsReturn(in)
+			if !ok || idx >= len(ret.Results) {
+				continue
+			}
+			n++
+			if !valueFresh(an.RetVal(ret, idx), depth, map[ssa.Value]bool{}, why) {
+				*why = an.ShortName(f) + ": " + *why
+				return false
+			}
+		}
+	}
+	return true
+}
+
+func valueFresh(v ssa.Value, depth int, seen map[ssa.Value]bool, why *string) bool {
+	if seen[v] {
+		return true
+	}
+	seen[v] = true
+	switch x := v.(type) {
+	case *ssa.Const:
+		return true
+	case *ssa.MakeSlice:
+		return true
+	case *ssa.Alloc:
+		return true
+	case *ssa.Slice:
+		return valueFresh(x.X, depth, seen, why)
+	case *ssa.Convert:
+		return true // string <-> []byte conversions copy
+	case *ssa.ChangeType:
+		return valueFresh(x.X, depth, seen, why)
+	case *ssa.Phi:
+		for _, e := range x.Edges {
+			if !valueFresh(e, depth, seen, why) {
+				return false
+			}
+		}
+		return true
+	case *ssa.Extract:
+		if call, ok := x.Tuple.(*ssa.Call); ok {
+			return callFresh(call, x.Index, depth, seen, why)
+		}
+	case *ssa.Call:
+		return callFresh(x, 0, depth, seen, why)
+	case *ssa.UnOp:
+		switch a := x.X.(type) {
+		case *ssa.FieldAddr:
+			*why = "a window of the field " + an.FieldName(a.X.Type(), a.Field) + ", which outlives the call"
+			return false
+		case *ssa.Global:
+			*why = "a window of the package variable " + a.Name()
+			return false
+		default:
+			*why = "storage reached through a pointer (" + x.X.Name() + ": " + x.X.Type().String() + "), which may be pooled or shared"
+			return false
+		}
+	case *ssa.Parameter:
+		*why = "the caller's own argument " + x.Name()
+		return false
+	}
+	*why = "not a buffer made in this call (" + v.Name() + " = " + v.String() + ")"
+	return false
+}
+
+func callFresh(call *ssa.Call, idx, depth int, seen map[ssa.Value]bool, why *string) bool {
+	name := an.CalleeName(call.Common())
+	if name == "builtin:append" && len(call.Call.Args) > 0 {
+		return valueFresh(call.Call.Args[0], depth, seen, why)
+	}
+	if fresh, known := freshLib[name]; known {
+		if !fresh {
+			*why = "the result of " + name + ", which is a window of its receiver"
+		}
+		return fresh
+	}
+	if g := an.StaticCallee(call.Common()); g != nil && len(g.Blocks) > 0 && strings.HasPrefix(load.FuncPkgPath(g), load.RootMod) {
+		return resultFresh(g, idx, depth+1, why)
+	}
+	*why = "the result of " + name + " (not known to allocate)"
+	return false
 }
